@@ -1776,8 +1776,6 @@ func (in *inliner) thread(s, next ast.Stmt) ([]ast.Stmt, int) {
 				}
 				te := cloneNode(exp.types[i], nil).(ast.Expr)
 				out = append(out, &ast.DeclStmt{Decl: &ast.GenDecl{Tok: token.VAR, Specs: []ast.Spec{&ast.ValueSpec{Names: []*ast.Ident{ast.NewIdent(id.Name)}, Type: te}}}})
-				// its only use may have been the test that is threaded away
-				out = append(out, &ast.AssignStmt{Lhs: []ast.Expr{ast.NewIdent("_")}, Tok: token.ASSIGN, Rhs: []ast.Expr{ast.NewIdent(id.Name)}})
 			}
 		}
 		copyBack = func() []ast.Stmt {
@@ -1786,7 +1784,14 @@ func (in *inliner) thread(s, next ast.Stmt) ([]ast.Stmt, int) {
 				lhs = append(lhs, ast.NewIdent(l.(*ast.Ident).Name))
 				rhs = append(rhs, ast.NewIdent(exp.results[i]))
 			}
-			return []ast.Stmt{&ast.AssignStmt{Lhs: lhs, Tok: token.ASSIGN, Rhs: rhs}}
+			// (the variables' only reads may have been the test that is threaded away)
+			sts := []ast.Stmt{&ast.AssignStmt{Lhs: lhs, Tok: token.ASSIGN, Rhs: rhs}}
+			for _, l := range asg.Lhs {
+				if n := l.(*ast.Ident).Name; n != "_" {
+					sts = append(sts, &ast.AssignStmt{Lhs: []ast.Expr{ast.NewIdent("_")}, Tok: token.ASSIGN, Rhs: []ast.Expr{ast.NewIdent(n)}})
+				}
+			}
+			return sts
 		}
 	}
 	out = append(out, exp.stmts...)
@@ -1812,15 +1817,7 @@ func (in *inliner) thread(s, next ast.Stmt) ([]ast.Stmt, int) {
 		return sts
 	}
 	if thr.mkTaken != nil && !thr.usedTaken {
-		// every return site carries its own copy of the taken side; the variables
-		// assigned here may have had their only reads there
-		if asg != nil {
-			for _, l := range asg.Lhs {
-				if n := l.(*ast.Ident).Name; n != "_" {
-					skipSide = append(skipSide, &ast.AssignStmt{Lhs: []ast.Expr{ast.NewIdent("_")}, Tok: token.ASSIGN, Rhs: []ast.Expr{ast.NewIdent(n)}})
-				}
-			}
-		}
+		// every return site carries its own copy of the taken side
 		out = append(out, labeled(thr.skip, thr.usedSkip, skipSide)...)
 		return out, consumed
 	}
